@@ -304,8 +304,8 @@ func orderTaint(p *core.Prog, r *core.Report, reach map[*ssa.Function]bool, effe
 			return true
 		}
 		if p.InSubject(g) {
-			file := p.File(g.Pos())
-			return strings.HasSuffix(file, "_messages.go")
+			// a message constructor of the package: returns the errors package's Error built from its arguments
+			return g.Signature.Results().Len() == 1 && strings.HasSuffix(g.Signature.Results().At(0).Type().String(), "errors.Error") && g.Signature.Recv() == nil
 		}
 		return strings.HasPrefix(q, "errors.") && g.Pkg != nil && g.Pkg.Pkg.Path() == "github.com/go-openapi/errors"
 	}
